@@ -230,6 +230,8 @@ func runC03(c *Ctx) {
 	c03LookupTotal(c, m, "C03.ptr-ownership")
 	// Add returns: the reservation loop under f.mu ends because extend never succeeds with a short mapping
 	c.R.As(map[string]string{"C10.page-tail": "C03.locking"}, func() { c10ExtendTail(c, m, "C10.page-tail") })
+	// a failed rotation or open leaves no counter attached to a record that cannot be created
+	c.R.As(map[string]string{"C05.fail-parks": "C03.ptr-ownership"}, func() { c05FailParks(c, m) })
 	add := m.Func("internal/counter", "Counter.Add")
 	relR := m.Func("internal/counter", "Counter.releaseReader")
 	relL := m.Func("internal/counter", "Counter.releaseLock")
